@@ -115,7 +115,7 @@ mutual
     | [] => ""
     | r :: rs => r.print ++ Re.printCat rs
   def Re.printAlt : List Re → String
-    | [] => ""
+    | [] => "[a&&b]"      -- no alternatives (`any` of nothing): the never-matching class, not the empty pattern
     | [r] => r.print
     | r :: rs => r.print ++ "|" ++ Re.printAlt rs
 end
